@@ -299,7 +299,11 @@ def _init_worker(path, modname, toy):
     _W["mod"] = importlib.import_module(modname)
 
 
-PERTURB_EVERY = int(os.environ.get("VERIF_PERTURB_EVERY", "8"))
+def perturb_every(tier):
+    """every k-th chunk is replayed in reverse order: quick every 4th, thorough every chunk (env override)."""
+    if os.environ.get("VERIF_PERTURB_EVERY"):
+        return int(os.environ["VERIF_PERTURB_EVERY"])
+    return 4 if tier == "quick" else 1
 
 
 def _digest_res(r):
@@ -325,9 +329,10 @@ def _run_chunk(arg):
             raise
         except BaseException as e:  # harness error: never a violation, always loud
             return ("error", idx, f"engine {ename} case {short(case)}: {traceback.format_exc()}")
-    # order-perturbed replay: every PERTURB_EVERY-th chunk is executed a second time in reverse order in the
+    # order-perturbed replay: every k-th chunk (perturb_every) is executed a second time in reverse order in the
     # same process; observations must be identical (shared mutable state in the library shows up here)
-    if PERTURB_EVERY and idx % PERTURB_EVERY == 0 and len(chunk) > 1:
+    pe = perturb_every(tier)
+    if pe and idx % pe == 0 and len(chunk) >= 1:
         again = []
         for case in reversed(chunk):
             try:
